@@ -307,6 +307,9 @@ AXIS_OPS = {
     'reindex_axis': lambda c, a, L: a.reindex_axis([L['x'][1], L['x'][0]], axis='x'),
     'reindex_axis-missing': lambda c, a, L: a.reindex_axis([L['x'][1], L['x'][1] + 1], axis='x'),
     'reindex_axis-axis-arg': lambda c, a, L: a.reindex_axis(c.da.Axis([L['x'][1], L['x'][1] + 1], 'x', long_name='other axis')),
+    'reindex_axis-real-missing': lambda c, a, L: a.reindex_axis([L['x'][0] + 0.0, L['x'][0] + 0.5, L['x'][1] + 0.0], axis='x'),
+    'reindex_axis-real-missing-ndarray': lambda c, a, L: a.reindex_axis(c.nparray([L['x'][0] + 0.5, L['x'][1] + 0.0], kind='f'), axis='x'),
+    'reindex_axis-real-present': lambda c, a, L: a.reindex_axis([L['x'][1] + 0.0, L['x'][0] + 0.0], axis='x'),
     'align': lambda c, a, L: c.da.align([c.mk(['x'], [[L['x'][1] + 1]], [0.0], register=False), a])[1],
     'list-index': lambda c, a, L: a[[L['x'][1], L['x'][0]]],
     'empty-mask': lambda c, a, L: a[c.nparray([False, False], kind='b')],
